@@ -54,6 +54,8 @@ type Beh struct {
 	Order  []string           `json:"order"`
 	Obs    map[string][]Entry `json:"obs"`
 	Policy string             `json:"policy"`
+	Config string             `json:"config"`
+	Lazy   bool               `json:"lazy"`
 	Meta   map[string]Comp    `json:"meta"`
 	OpList []OpT              `json:"oplist"`
 	Leak   *Comp              `json:"leak"`
@@ -65,6 +67,8 @@ type Beh struct {
 type Case struct {
 	Script  map[string][]int     `json:"script"`
 	Order   []string             `json:"order"`
+	Config  string               `json:"config"` // how the contexts are created: explicit | zero | default
+	Lazy    bool                 `json:"lazy"`   // contexts are created at their first step
 	Allowed []map[string][]Entry `json:"allowed"`
 }
 
@@ -134,7 +138,7 @@ func (c *Case) render() map[string]interface{} {
 			}
 		}
 	}
-	return map[string]interface{}{"script": sc, "order": c.Order}
+	return map[string]interface{}{"script": sc, "order": c.Order, "contexts_created": c.Config, "created_at_first_step": c.Lazy}
 }
 
 // ---- TLC runs ---------------------------------------------------------------------------
@@ -160,10 +164,10 @@ func runIdeal(env *common.Env, rep *common.Report, cases map[string]*Case, order
 			if r.Script == nil {
 				return
 			}
-			k := scriptKey(r.Script) + strings.Join(r.Order, "")
+			k := scriptKey(r.Script) + strings.Join(r.Order, "") + "/" + r.Config
 			c := cases[k]
 			if c == nil {
-				c = &Case{Script: r.Script, Order: r.Order}
+				c = &Case{Script: r.Script, Order: r.Order, Config: r.Config, Lazy: r.Lazy}
 				cases[k] = c
 				*order = append(*order, k)
 			}
@@ -359,6 +363,10 @@ func parseRaceLogs(glob string) []raceReport {
 // ---- main -------------------------------------------------------------------------------
 
 func main() {
+	if jf := os.Getenv("GPV_C08_SOLO"); jf != "" {
+		soloWorker(jf)
+		return
+	}
 	if os.Getenv("GPV_C08_STRESS") != "" {
 		stressWorker(os.Getenv("GPV_C08_STRESS"))
 		return
@@ -380,9 +388,9 @@ func main() {
 	var order []string
 	var stats []tlcStats
 	nops := 21 // size of the alphabet; checked against the Meta record below
-	samples := []smp{{env.Pick(250, 2000), 2, 2}, {env.Pick(40, 400), 3, 2}, {env.Pick(60, 800), 2, 3}, {env.Pick(0, 40), 3, 3}}
+	samples := []smp{{env.Pick(250, 1500), 2, 2}, {env.Pick(40, 300), 3, 2}, {env.Pick(60, 600), 2, 3}, {env.Pick(0, 30), 3, 3}}
 	mcs := map[string]string{"MCS.tla": sampleModule(rng, samples, nops)}
-	stats = append(stats, runIdeal(env, rep, cases, &order, "ideal.cfg", mcs, "MCS"))
+	stats = append(stats, runIdeal(env, rep, cases, &order, map[bool]string{false: "ideal.cfg", true: "ideal_thorough.cfg"}[env.Thorough()], mcs, "MCS"))
 	if env.Thorough() {
 		stats = append(stats, runIdeal(env, rep, cases, &order, "ideal_111.cfg", map[string]string{"MCS.tla": sampleModule(rng, nil, nops)}, "MCS"))
 		// design check of the larger family; nothing exported (replaying its 420 000 behaviours under -race does not fit the budget)
@@ -437,9 +445,12 @@ func replayAll(env *common.Env, rep *common.Report, cases map[string]*Case, orde
 		if tot == 1 {
 			// alone in the process: no other context exists
 			d := replayCase(c, int(atomic.AddInt64(&serial, 1)), true)
-			if d != nil && !d.foreign {
+			if d != nil && !d.foreign && !soloInFreshProcess(env, c) {
+				// also in a process that has never had another context: the templates and the specification disagree
 				common.Inconclusive("property=C08 scaffold: a single operation run alone does not behave as the specification says: %v", d.detail(c))
 			}
+			// (if it behaves as specified in a fresh process, the divergence here is caused by state that
+			// earlier, closed contexts of this process left behind: a leak between contexts)
 			if d == nil {
 				// the same with idle contexts around it
 				d = replayCase(c, int(atomic.AddInt64(&serial, 1)), false)
@@ -553,6 +564,18 @@ func replayAll(env *common.Env, rep *common.Report, cases map[string]*Case, orde
 	return leaky
 }
 
+// soloInFreshProcess runs one single-operation case in a new process and reports whether it behaves as specified there.
+func soloInFreshProcess(env *common.Env, c *Case) bool {
+	jf := filepath.Join(env.Scratch, "solo.json")
+	b, _ := json.Marshal(&stressJob{Cases: []*Case{c}, OpList: opList, Meta: meta, Scratch: env.Scratch})
+	os.WriteFile(jf, b, 0o644)
+	cmd := exec.Command(os.Args[0])
+	cmd.Dir = env.Scratch
+	cmd.Env = append(os.Environ(), "GPV_C08_SOLO="+jf)
+	out, err := cmd.Output()
+	return err == nil && strings.TrimSpace(string(out)) == "match"
+}
+
 // ---- race stage -------------------------------------------------------------------------
 
 type stressJob struct {
@@ -646,7 +669,7 @@ func raceStage(env *common.Env, rep *common.Report, rng *rand.Rand, cases map[st
 		if c.nonEmpty() < 2 {
 			continue
 		}
-		sk := scriptKey(c.Script)
+		sk := scriptKey(c.Script) + "/" + c.Config
 		if _, ok := byScript[sk]; !ok {
 			byScript[sk] = c
 			keys = append(keys, sk)
@@ -682,7 +705,7 @@ func raceStage(env *common.Env, rep *common.Report, rng *rand.Rand, cases map[st
 	// clean workload: everything that did not leak in the replay, plus concurrent Compile and a shared code object
 	job := &stressJob{Cases: clean, OpList: opList, Meta: meta, Rounds: env.Pick(1, 2), Parallel: 4, Compilers: 16, SharedN: env.Pick(8, 16),
 		Corpus: corpus(env, rng, env.Pick(24, 120)), Scratch: env.Scratch, Seed: env.Seed, CheckObs: true}
-	job.BudgetS = env.Pick(25, 240)
+	job.BudgetS = env.Pick(25, 150)
 	res, stderr, err := runStress(env, "clean", job, time.Duration(job.BudgetS+90)*time.Second)
 	reports := parseRaceLogs(filepath.Join(env.Scratch, "race-clean.*"))
 	reports = append(reports, parseRaceLogs(filepath.Join(env.Scratch, "race.*"))...) // the gated replay itself
@@ -725,7 +748,7 @@ func raceStage(env *common.Env, rep *common.Report, rng *rand.Rand, cases map[st
 			continue
 		}
 		name := fmt.Sprintf("leaky%d", i)
-		job := &stressJob{Cases: cs, OpList: opList, Meta: meta, Rounds: env.Pick(3, 6), Parallel: 4, Scratch: env.Scratch, Seed: env.Seed, BudgetS: env.Pick(8, 40)}
+		job := &stressJob{Cases: cs, OpList: opList, Meta: meta, Rounds: env.Pick(3, 6), Parallel: 4, Scratch: env.Scratch, Seed: env.Seed, BudgetS: env.Pick(8, 25)}
 		res, stderr, err := runStress(env, name, job, time.Duration(job.BudgetS+60)*time.Second)
 		key := "C08|" + leaky[comp] + "|" + comp + " shared|data race"
 		info := map[string]interface{}{"assignments": len(cs)}
